@@ -80,6 +80,14 @@ func init() {
 				}
 				w.app.ClpKeeper.SetSwapFeeParams(w.ctx, &sp)
 			}
+			// some pools margin-enabled (no liabilities here: the pool-health gate passes)
+			if rng.Chance(1, 3) {
+				for _, sym := range ammTokens {
+					if rng.Bool() {
+						w.setMarginPool(sym, true)
+					}
+				}
+			}
 			if rng.Bool() {
 				r := rng.Rate01()
 				rp := w.app.ClpKeeper.GetPmtpRateParams(w.ctx)
